@@ -49,6 +49,10 @@ def oracle(line: str, obs: Obs):
                     final[l.split(" ")[1]] = kv(l)
             newcomers = [c for c in final if c not in known_before]
             for c in newcomers:
+                first = next(kv(l) for l in lines if l.startswith(f"CONN {c} "))
+                if first["live"] != "0":
+                    fails.append({"what": "a connection arriving while the node is stopping was registered instead of being closed "
+                                          "at once", "event": ev[:200], "real": f"{c} {first}"})
                 served = [d for cc, d in outs if cc == c]
                 if served:
                     fails.append({"what": "a connection arriving while the node is stopping was served / a peer was dialled",
@@ -71,6 +75,9 @@ def oracle(line: str, obs: Obs):
             if not any(l == "STOPPED" for l in lines):
                 fails.append({"what": "stop() did not return normally", "event": ev[:200],
                               "real": str([l for l in lines if l.startswith(("RAISE", "CRASH"))])})
+            lsn = next((kv(l) for l in reversed(lines) if l.startswith("LSN ")), {})
+            if lsn.get("open", "0") != "0":
+                fails.append({"what": "a listening socket is still open after stop returned", "event": ev[:200], "real": str(lsn)})
             still = [c for c, d in final.items() if d["live"] == "1"]
             resl = next((kv(l) for l in reversed(lines) if l.startswith("RES ")), {})
             if still or resl.get("socketsOpen") != "0" or resl.get("workersLive") != "0":
@@ -136,10 +143,12 @@ def scenarios(rng: random.Random, tier: str):
             nested += [f"rx_{c}_" + nodegen.dpa(n(), n(), nm), f"block_{c}_0"]
         if rng.random() < 0.3:
             nested.append("acc")
+            if rng.random() < 0.5:          # ... and the newcomer sends its CER
+                nested.append(f"rx_{k}_" + nodegen.cer(rng.choice(names), "4", n(), n()))
         if rng.random() < 0.2:
             nested.append("adv_3")
         evs.append(f"stop {force} {tmo} " + " ".join(nested))
-        out.append(CFG + " | " + " | ".join(evs))
+        out.append(CFG.replace("NODE ", f"NODE addrs={rng.choice([1, 1, 2, 3])};") + " | " + " | ".join(evs))
     return out
 
 
